@@ -10,6 +10,8 @@
 
 #include <boost/gil/extension/io/bmp/tags.hpp>
 
+#include <limits>
+
 namespace boost { namespace gil {
 
 #if BOOST_WORKAROUND(BOOST_MSVC, >= 1400)
@@ -74,7 +76,8 @@ public:
     {
         // the magic number used to identify the BMP file:
         // 0x42 0x4D (ASCII code points for B and M)
-        if( _io_dev.read_uint16() == 0x424D )
+        // (read as a little endian integer: 'B' is the low byte)
+        if( _io_dev.read_uint16() != 0x4D42 )
         {
             io_error( "Wrong magic number for bmp file." );
         }
@@ -102,6 +105,11 @@ public:
 
             if (_info._height < 0)
             {
+                if( _info._height == (std::numeric_limits< bmp_image_height::type >::min)() )
+                {
+                    io_error( "Invalid dimension for bmp file" );
+                }
+
                 _info._height = -_info._height;
                 _info._top_down = true;
             }
@@ -167,6 +175,18 @@ public:
         else
         {
             io_error( "Invalid BMP info header." );
+        }
+
+        // Do not trust the header: the readers size their buffers and loops from these fields.
+        if( _info._width < 1 || _info._height < 1 )
+        {
+            io_error( "Invalid dimension for bmp file" );
+        }
+
+        switch( _info._bits_per_pixel )
+        {
+            case 1: case 4: case 8: case 15: case 16: case 24: case 32: break;
+            default: io_error( "Unsupported bits per pixel for bmp file" );
         }
 
         _info._valid = true;
